@@ -84,7 +84,8 @@ def _cells(B, tag, got, want):
 # ------------------------------------------------------------------- data
 def data_frame(B, cfg):
     """rows per individual: 'a'/'b' measurement of observable A/B, 'n'
-    measurement of A with a missing value, 'd' dose row"""
+    measurement of A with a missing value, 'd' dose row, 'x' dose row that
+    also carries a measurement of A"""
     import pandas as pd
     keys = cfg.get('keys', dict(id='ID', time='Time', obs='Observable',
                                 value='Value', dose='Dose',
@@ -107,11 +108,17 @@ def data_frame(B, cfg):
             elif k == 'n':
                 r[keys['obs']] = 'A'
                 tr['A'].append((t, NAN))
-            elif k == 'd':
+            elif k in 'dx':
                 d, u = B.var('d%d_%d' % (i, j)), B.var('u%d_%d' % (i, j))
                 r[keys['dose']] = d
                 r[keys['duration']] = u
                 tr['doses'].append((t, d, u))
+                if k == 'x':
+                    # a measurement noted on the dose record
+                    v = B.var('v%d_%d' % (i, j))
+                    r[keys['obs']] = 'A'
+                    r[keys['value']] = v
+                    tr['A'].append((t, v))
             rows.append(r)
         per.append(rows)
         truth[lab] = tr
@@ -205,7 +212,7 @@ def case_data(B, cfg):
 # ------------------------------------------------------------------ bands
 def case_bands(B, cfg):
     import pandas as pd
-    times = cfg['times']                     # concrete, ascending
+    times = cfg['times']                     # concrete, distinct
     n = cfg['n_samples']
     probs = cfg['probs']
     rows = []
@@ -268,14 +275,18 @@ def case_bands(B, cfg):
     for tr in traces:
         p = float(str(tr.text).split()[0])
         x, y = list(tr.x), list(tr.y)
-        B.fact('band %s: polygon over the time points and back' % p,
-               len(x) == 2 * T_ and len(y) == 2 * T_ and
-               [float(v) for v in x] == list(times) + list(times)[::-1],
-               repr(x))
-        if len(y) != 2 * T_:
+        ok = len(x) == 2 * T_ and len(y) == 2 * T_
+        xs = [float(v) for v in x] if ok else []
+        B.fact('band %s: polygon over every time point once and back' % p,
+               ok and sorted(xs[:T_]) == sorted(times) and
+               xs[T_:] == xs[:T_][::-1], repr(x))
+        if not (ok and sorted(xs[:T_]) == sorted(times)
+                and xs[T_:] == xs[:T_][::-1]):
             continue
-        upper = y[:T_]
-        lower = y[T_:][::-1]
+        # the limits drawn *at* time t, wherever t sits in the polygon
+        at = {t_: i for i, t_ in enumerate(xs[:T_])}
+        upper = [y[at[t_]] for t_ in times]
+        lower = [y[2 * T_ - 1 - at[t_]] for t_ in times]
         bands[p] = (lower, upper)
         for k, t in enumerate(times):
             L, U = lower[k], upper[k]
@@ -332,7 +343,7 @@ def jobs(tier):
     figs = ['PDTimeSeriesPlot', 'PKTimeSeriesPlot', 'PDPredictivePlot',
             'PKPredictivePlot']
     layouts = [['a', 'a'], ['a', 'b', 'a'], ['d', 'a', 'd'], ['b', 'a', 'n'],
-               ['d', 'b'], ['a']]
+               ['d', 'b'], ['a'], ['x', 'a'], ['x']]
     k = 0
     for f in figs:
         for l1, l2 in itertools.product(layouts, repeat=2):
@@ -363,6 +374,12 @@ def jobs(tier):
                 out.append(('bands', 'case_bands', dict(
                     figure=f, times=[1.0, 2.5][:len(n)], n_samples=n,
                     probs=probs), FACADE))
+        # time points that first appear in non-ascending order
+        for times_, n in (([2.5, 1.0], [3, 2]), ([1.0, 4.0, 2.5], [2, 3, 2]),
+                          ([4.0, 2.5, 1.0], [3, 1, 2])):
+            out.append(('bands', 'case_bands', dict(
+                figure=f, times=times_, n_samples=n, probs=[0.3, 0.0],
+                distinct=True), FACADE))
         # more samples, pairwise distinct (strict orderings only), with
         # probabilities whose percentiles fall on and between the ranks
         big = [(5, [0.6, 0.2]), (5, [0.5, 0.9]),
@@ -388,11 +405,12 @@ def jobs(tier):
 
 
 BOUNDS = dict(
-    quick='4 figure classes; 3 individuals with every third pair of 6 row '
+    quick='4 figure classes; 3 individuals with every third pair of 8 row '
           'layouts (measurements of two observables, missing values, dose '
-          'rows), block and interleaved row order, string / integer IDs, '
+          'rows, dose rows that also carry a measurement), block and interleaved row order, string / integer IDs, '
           'default and custom column keys, an extra column; prediction bands '
-          'for 2-4 samples per time point (1-2 time points) and 4 sets of '
+          'for 2-4 samples per time point (1-3 time points, also first '
+          'appearing in non-ascending order) and 4 sets of '
           'bulk probabilities incl. 0 and 1: every weak ordering of the '
           'samples is a path; 5 pairwise distinct samples (every strict '
           'ordering); 8, 12 and 20 samples in 4 fixed strict orderings '
